@@ -22,3 +22,4 @@ open Emboss.Scope
 #print axioms C12_member_lookup_errors
 #print axioms C12_member_lookup_names
 #print axioms C12_abbreviation_tail_counterexample
+#print axioms C12_self_renaming_counterexample
